@@ -57,3 +57,51 @@ def run(lib, rng, n_cases, T, rec, seed):
     if inj.switches == 0:
         rec.inconclusive_because("no context switch inside library code observed under %d threads" % T)
     return [(cases[i][0], cases[i][1], results[i]) for i in range(len(cases)) if results[i] is not None]
+
+
+def run_delegation(lib, rng, n_cases, T, rec, seed):
+    """concurrent verify_delegation calls for DIFFERENT roles / documents; each judged by the model of its own call"""
+    from . import delegation
+
+    cases = []
+    while len(cases) < n_cases:
+        c = delegation.gen_case(rng, stratum=rng.choice(["named", "named", "below", "other_role", "union", "untrusted_own", "type_confusion"]))
+        m, failed = models.delegation_verdict(c["role"], c["untrusted"], c["trusted"], c["gpg"])
+        if m.v == models.GREY:
+            continue
+        cases.append((c, m))
+    results = [None] * len(cases)
+    order = list(range(len(cases)))
+    rng.shuffle(order)
+    slices = [order[i::T] for i in range(T)]
+    A = lib.authentication
+    errors = []
+    start = threading.Barrier(T)
+
+    def worker(t):
+        try:
+            start.wait()
+            for i in slices[t]:
+                c = cases[i][0]
+                results[i] = boundary.call(lib, A.verify_delegation, c["role"], c["untrusted"], c["trusted"], gpg=c["gpg"])
+        except BaseException as e:  # noqa: BLE001
+            errors.append("%s: %s" % (type(e).__name__, e))
+
+    inj = sysmon.YieldInjector(lib.pkg_dir, random.Random(seed), prob=0.05)
+    with inj:
+        ths = [threading.Thread(target=worker, args=(t,)) for t in range(T)]
+        for th in ths:
+            th.start()
+        for th in ths:
+            th.join(600)
+    if any(th.is_alive() for th in ths):
+        rec.inconclusive_because("thread workload did not finish within the watchdog")
+        return []
+    if errors:
+        rec.inconclusive_because("thread harness error: " + errors[0])
+        return []
+    rec.count("threaded_verifications", len(cases))
+    rec.count("context_switches_inside_library", inj.switches)
+    if inj.switches == 0:
+        rec.inconclusive_because("no context switch inside library code observed under %d threads" % T)
+    return [(cases[i][0], cases[i][1], results[i]) for i in range(len(cases)) if results[i] is not None]
